@@ -221,6 +221,67 @@ impl<'a> G<'a> {
         self.peer(wire(0, fl, sid, &p));
     }
 
+    fn req(&mut self, eos: bool, m: &str) {
+        let a = self.op(format!("cn_reqc {} {} /p{} -", eos as u8, m, self.nslots));
+        if let Some(rest) = Self::field(&a, "r=").strip_prefix("ok:") {
+            let p: Vec<&str> = rest.split(':').collect();
+            let sid: u32 = p[1].parse().unwrap_or(0);
+            self.nslots += 1;
+            self.slot_sid.push(sid);
+        }
+    }
+
+    /// a concurrency slot is recycled while the codec is busy: the limit is reached, requests wait, the
+    /// response of the open stream is complete, and the END_STREAM DATA frame that frees the slot is large
+    /// enough to fill the codec (chained payload) — optionally under write back-pressure, optionally with the
+    /// waiting request cancelled in that window
+    fn slot_recycle_prelude(&mut self) {
+        let mut p = vec![0u8, 3];
+        p.extend_from_slice(&1u32.to_be_bytes());
+        self.peer(wire(4, 0, 0, &p));
+        self.op("cn_poll".to_string());
+        self.ack_settings();
+        let first = self.nslots;
+        self.req(false, "POST");
+        let waiting = 1 + self.rng.below(3) as usize;
+        for _ in 0..waiting {
+            let eos = self.rng.chance(1, 2);
+            self.req(eos, "POST");
+        }
+        self.op("cn_poll".to_string());
+        if self.dead || self.nslots <= first {
+            return;
+        }
+        let sid = self.slot_sid[first];
+        if self.streams.get(&sid).map(|s| s.headers_seen).unwrap_or(false) {
+            self.peer(wire(1, 5, sid, &[0x88]));
+            if let Some(s) = self.streams.get_mut(&sid) {
+                s.responded = true;
+                s.peer_closed = true;
+            }
+            self.op("cn_poll".to_string());
+        }
+        let len = *self.rng.pick(&[1024usize, 5000, 16384, 20000]);
+        self.op(format!("cn_data {} {} 1", first, len));
+        if self.rng.chance(2, 3) {
+            let b = *self.rng.pick(&[0usize, 9, 100, 1500, 6000]);
+            self.op(format!("cn_budget {}", b));
+        }
+        self.op("cn_poll".to_string());
+        if self.rng.chance(1, 2) && self.nslots > first + 1 {
+            if self.rng.chance(1, 2) {
+                self.op(format!("cn_reset {} 8", first + 1));
+            } else {
+                self.op(format!("cn_drop {} all", first + 1));
+            }
+        }
+        if self.rng.chance(1, 2) {
+            self.op("cn_poll".to_string());
+        }
+        self.op("cn_budget inf".to_string());
+        self.op("cn_poll".to_string());
+    }
+
     fn step_client(&mut self) {
         let r = self.rng.below(100);
         let flow = self.flavor == "flow";
@@ -229,7 +290,8 @@ impl<'a> G<'a> {
                 let eos = self.rng.chance(1, 4);
                 let m = *self.rng.pick(&["POST", "GET", "PUT"]);
                 let extra = if self.rng.chance(1, 6) { format!("{}={}", hex(b"content-length"), hex(b"10")) } else { "-".to_string() };
-                let a = self.op(format!("cn_req {} {} /p{} {}", eos as u8, m, self.nslots, extra));
+                let via = if self.rng.chance(1, 3) { "cn_reqc" } else { "cn_req" };
+                let a = self.op(format!("{} {} {} /p{} {}", via, eos as u8, m, self.nslots, extra));
                 if let Some(rest) = Self::field(&a, "r=").strip_prefix("ok:") {
                     let p: Vec<&str> = rest.split(':').collect();
                     let sid: u32 = p[1].parse().unwrap_or(0);
@@ -796,6 +858,9 @@ pub fn generate(profile: &str, rng: &mut Rng, cases: usize, out: &mut dyn Write)
         g.op("cn_poll".to_string());
         g.ack_settings();
         g.op("cn_poll".to_string());
+        if role == "client" && flavor != "c09" && g.rng.chance(1, 6) {
+            g.slot_recycle_prelude();
+        }
         let nops = if flavor == "c09" { 5 + g.rng.below(60) } else { 20 + g.rng.below(180) };
         for _ in 0..nops {
             if g.dead {
